@@ -51,6 +51,8 @@ def unary_templates(d):
           ('num:left-', '(2-{0})', True), ('num:right-', '({0}-2)', True), ('num:/', '({0}/2)', True), ('num:float*', '(-1.5*{0})', True),
           ('num:*0', '({0}*0)', True)]
     t += [(f'pow:{n}', '({0}**' + (f'({n})' if n < 0 else str(n)) + ')', True) for n in (-2, -1, 0, 1, 2, 3)]
+    # method forms of the products / sum / difference / quotient with a plain number
+    t += [(f'method-num:{m}', '{0}.' + m + '(2)', True) for m in ('gp', 'ip', 'op', 'lc', 'rc', 'sp', 'cp', 'acp', 'add', 'sub', 'div', 'sw', 'proj', 'rp')]
     # outside the grammar of the statement: the registered function may raise, but must not return a different value
     t += [('x:num|', '(2|{0})', False), ('x:num&', '(2&{0})', False), ('x:num>>', '(2>>{0})', False), ('x:num@', '(2@{0})', False),
           ('x:num/', '(2/{0})', False), ('x:num^', '(2^{0})', False), ('x:^num', '({0}^2)', False), ('x:|num', '({0}|2)', False),
@@ -134,7 +136,7 @@ def layouts_for(alg, which):
     from ..spaces import grade_of as g
     vec = tuple(k for k in c if g(k) == 1)
     even = tuple(k for k in c if g(k) % 2 == 0)
-    L = {'dense': c, 'even': even, 'vector': vec, 'revsparse': tuple(reversed((c[1], c[-1], c[len(c) // 2])))}
+    L = {'dense': c, 'even': even, 'vector': vec, 'revsparse': tuple(reversed((c[1], c[-1], c[len(c) // 2]))), 'blade': (c[2],)}
     return [(n, L[n]) for n in which]
 
 
@@ -293,7 +295,7 @@ def drive(ctx):
         for ch in chunks(d1 + big_powers(), 12):
             tasks.append((a, ch, all_l, ['Fraction', 'float'], ['numeric'], ()))
         for ch in chunks(d1, 16):
-            tasks.append((a, ch, all_l[:3], ['Fraction'], ['symbolic'], ()))
+            tasks.append((a, ch, ['dense', 'blade', 'vector'], ['Fraction'], ['symbolic'], ()))
     for out in ctx.map('run_programs', tasks):
         for v in out['violations']:
             if isinstance(v['case']['cid'], str):
